@@ -336,6 +336,28 @@ def conformance(jobs):
             elif len(drifts) < 5:
                 drifts.append({"cfg": job.cfg, "header": job.execs[i][0], "cmds": job.execs[i][1], "expected": exp,
                                "observed": seen.get(i, [])})
+    # Compose: the leaf that serves each top-level request / gets each block back, and the shape it is asked in
+    # (header key `cexpect`: <leaf><n|a><count>x<size> per call)
+    for job in jobs:
+        cx = {i: h["cexpect"].split(".") for i, (h, c) in enumerate(job.execs) if "cexpect" in h}
+        if not cx:
+            continue
+        seen, xn = {}, -1
+        with open(job.trace) as f:
+            for ln in f:
+                if ln.startswith('{"e":"x"'):
+                    xn += 1
+                elif xn in cx and ln.startswith('{"e":"leaf"') and ('"r":"ok"' in ln or '"r":"true"' in ln):
+                    e = json.loads(ln)
+                    seen.setdefault(xn, []).append("%d%s%dx%d" % (e["L"], "n" if e["op"].endswith("n") else "a", e["n"], e["sz"]))
+        for i, exp in cx.items():
+            checked += 1
+            # (what follows the scripted calls is the driver's clean-up of what the script left allocated)
+            if seen.get(i, [])[:len(exp)] == exp:
+                matched += 1
+            elif len(drifts) < 5:
+                drifts.append({"cfg": job.cfg, "header": job.execs[i][0], "cmds": job.execs[i][1], "expected": exp,
+                               "observed": seen.get(i, [])})
     return {"executions_with_model_prediction": checked, "matched": matched, "drift_samples": drifts}
 
 
